@@ -162,8 +162,21 @@ func isValidBits(x int) bool {
 }
 
 func bitsFromASCII(p []byte) (WindowBits, bool) {
-	n, ok := httphead.IntFromASCII(p)
-	if !ok || !isValidBits(n) {
+	// NOTE: httphead.IntFromASCII() takes bytes 0x3a..0x3f for digits and
+	// overflows silently, so ":" or "18446744073709551626" would be read as 10.
+	if len(p) == 0 {
+		return 0, false
+	}
+	n := 0
+	for _, c := range p {
+		if c < '0' || c > '9' {
+			return 0, false
+		}
+		if n = n*10 + int(c-'0'); n > 15 {
+			return 0, false
+		}
+	}
+	if !isValidBits(n) {
 		return 0, false
 	}
 	return WindowBits(n), true
